@@ -174,7 +174,7 @@ def judge_history(ctx, b, runs, case, label, nontrivial_key=None, judge_cells=Tr
                 return 'bad'
             kind = B.VAR_KIND.get(v, '?')
             for s in series:
-                ok = (isinstance(s, (int, float)) and not isinstance(s, bool)) if kind is None else type(s).__name__ == kind
+                ok = (isinstance(s, (int, float)) and not isinstance(s, bool)) if kind is None else isinstance(s, getattr(B.g().un, kind, ()))
                 if not ok:
                     ctx.violation('C17:sample-kind', {'element': el.name, 'variable': v, 'sample_type': type(s).__name__, 'expected': kind or 'int/float', 'config': label}, case)
                     return 'bad'
